@@ -200,3 +200,51 @@ def batch_effects(ctx, fx, files, pairs=(("remove", "remove_batch"), ("put", "pu
                                       bfn.file, bfn.line)
     ctx.instance(rule + ".pairs", n)
     return n
+
+
+# ------------------------------------------------------------------ R-DELEGATE
+DELEGATED = ("get", "size", "contains", "len", "remove", "put", "is_empty", "flush")
+
+
+def wrapper_delegation(ctx, fx, trait_suffix="blob_store::traits::BlobStore", inner_field="inner", rule="R-DELEGATE"):
+    """a wrapper store (a struct with a field `inner`) answers every BlobStore query from the store it wraps: each of
+    get/size/contains/len/remove/put/is_empty/flush reaches a call whose receiver is `self.inner` (directly or through one
+    private method of the wrapper). A wrapper that answers `contains`/`size` from bookkeeping of its own disagrees with
+    `get` for records that were in the inner store before it was wrapped."""
+    from rules.queue import field_of_receiver
+    n = 0
+
+    def touches_inner(fn, st, depth=0):
+        for b, c in fn.calls():
+            if c["a"] and op_local(c["a"][0]) is not None and inner_field in field_of_receiver(fn, op_local(c["a"][0]), st):
+                return True
+        if depth < 1:
+            for b, c in fn.calls():
+                if c.get("loc") and fx.has(c["f"]) and (fx.raw(c["f"])["self_ty"] or "").split("<")[0] == st:
+                    if touches_inner(Fn(fx.raw(c["f"])), st, depth + 1):
+                        return True
+        return False
+    for imp in fx.impls:
+        if not (imp.get("trait") or "").endswith(trait_suffix):
+            continue
+        st = imp["self_ty"].split("<")[0]
+        adt = fx.adts.get(st)
+        if not adt or inner_field not in [f[0] for f in adt["variants"][0]["fields"]]:
+            continue
+        for it in imp["items"]:
+            m = it.rsplit("::", 1)[-1]
+            if m not in DELEGATED:
+                continue
+            fn = Fn(fx.raw(it))
+            n += 1
+            ctx.analysed_fns.add(it)
+            ok = touches_inner(fn, st)
+            ctx.obligation(rule, it, "%s::%s consults inner" % (st.rsplit("::", 1)[-1], m), ok,
+                           sample={"wrapper": st.rsplit("::", 1)[-1], "method": m, "delegates": ok})
+            if not ok:
+                ctx.violation(rule, it, "%s answered without the wrapped store" % m,
+                              "%s::%s never calls into `self.%s`: it answers from the wrapper's own bookkeeping, which knows nothing "
+                              "about records that were already in the wrapped store" % (st.rsplit("::", 1)[-1], m, inner_field),
+                              fn.file, fn.line)
+    ctx.instance(rule + ".methods", n)
+    return n
